@@ -309,6 +309,8 @@ Value& MemberCONCATExpression::value(Context& ctx) const
     default:
       break;
     }
+    /* a string takes a string or one byte: nothing else (do not fall into the bytes case) */
+    break;
 
     /* tabchar */
   case Type::TABCHAR:
